@@ -248,6 +248,12 @@ func parseContractFile(path string, cs *ContractSet) error {
 				lm.Label = m[1]
 				rest = rest[len(m[0]):]
 			}
+			if strings.HasPrefix(rest, "@") {
+				if j := strings.IndexAny(rest, " \t"); j > 0 {
+					lm.Props = strings.Split(rest[1:j], ",")
+					rest = strings.TrimSpace(rest[j:])
+				}
+			}
 			if !strings.HasPrefix(rest, "(") {
 				return fmt.Errorf("%s:%d: lemma needs a parameter list", path, l.line)
 			}
